@@ -7,7 +7,7 @@ Undischarged obligations are either known findings (genuine, reproduced or read)
 claimed), or violations."""
 import os
 from ..ir import Program
-from .. import frontend, capcheck
+from .. import frontend, capcheck, budget
 from . import capcommon
 from . import prim_common
 
@@ -92,8 +92,9 @@ def run(ck):
     if wr.get("wrappers", 0) < 100:
         ck.fail_broken("wrapper rule: only %d public wrapper macros matched a library function (< 100)" % wr.get("wrappers", 0))
     prim = prim_common.primitive_rule(ck, prog, "C01", ck.report)
+    bud = budget.rule(prog, ck.report, "C01", broken=ck.fail_broken)
     fx = selftest(ck)
-    cov = dict(primitives_by_byte_accounting={k: dict(paths=v.get("paths"), loops=v.get("loops"), iteration_paths=v.get("iteration_paths"), assumed_min_count=v.get("assumed_min_count"), call_sites=v.get("call_sites")) for k, v in prim.items()},
+    cov = dict(cursor_and_count_loops=bud, primitives_by_byte_accounting={k: dict(paths=v.get("paths"), loops=v.get("loops"), iteration_paths=v.get("iteration_paths"), assumed_min_count=v.get("assumed_min_count"), call_sites=v.get("call_sites")) for k, v in prim.items()},
                explanation="%d write obligations over all function definitions of the 140 TUs: %d discharged (offset and upper bound entailed from loop invariants, guards and the caller's "
                "truthfulness premise), %d outside the reach of the domain in %d functions (listed with reasons, not claimed), the rest matched against known findings or reported."
                % (st["total"], st["discharged"], st["outside_reach"], len(st["outside_reach_functions"])),
@@ -126,4 +127,9 @@ def selftest(ck):
     out["wrapper_rule"] = got
     if sorted(got) != ["C01:wrapper-size-mismatch:fx1_copy_swapped:destbos", "C01:wrapper-size-mismatch:fx1_copy_swapped:srcbos"]:
         ck.fail_broken("fixture c01.c: wrapper rule reported %s" % got)
+    got = []
+    r = budget.rule(prog, lambda key, *a, **k: got.append(key), "C01", funcs=[prog.funcs[n] for n in ("fxb_good", "fxb_no_room", "fxb_double_dec")], floor=0)
+    out["budget_rule"] = dict(reports=got, loops=r["loops"], iteration_paths=r["iteration_paths"])
+    if got != ["C01:no-room-established:fxb_no_room:#1", "C01:no-room-established:fxb_no_room:#2", "C01:no-room-established:fxb_no_room:#3"] or r["loops"] != 3:
+        ck.fail_broken("fixture c01.c: budget rule reported %s over %d loops" % (got, r["loops"]))
     return out
